@@ -361,6 +361,9 @@ func (p *Parent) jobTimeout() time.Duration {
 func (p *Parent) runJob(j job, sum *Summary) {
 	start, count := j.start, j.count
 	attempt := 0
+	// noLimit: the range is being run again without the address-space limit, after a
+	// worker died of memory exhaustion under it (see below)
+	noLimit := false
 	for count > 0 {
 		out := filepath.Join(p.Work, fmt.Sprintf("job-%d-%d", j.id, attempt))
 		attempt++
@@ -371,8 +374,11 @@ func (p *Parent) runJob(j job, sum *Summary) {
 		memKB := p.M.MemLimitKB
 		if memKB == 0 {
 			memKB = 4000000 // every worker runs under an address-space limit so that a forged count kills the child, not the sandbox
+			if v, e := strconv.Atoi(os.Getenv("VERIF_MEMLIMIT_KB")); e == nil && v > 0 {
+				memKB = v // (for testing the re-run logic below)
+			}
 		}
-		if memKB > 0 {
+		if memKB > 0 && !noLimit {
 			sh := fmt.Sprintf("ulimit -v %d; exec %q", memKB, p.Exe)
 			for _, a := range args {
 				sh += " " + fmt.Sprintf("%q", a)
@@ -414,7 +420,22 @@ func (p *Parent) runJob(j job, sum *Summary) {
 			sum.AddInconclusive(fmt.Sprintf("watchdog: worker %s[%d,%d) exceeded %s", j.class, start, start+count, p.jobTimeout()))
 			return
 		}
-		// the worker died: which case was it on?
+		// the worker died.  If it died of memory exhaustion under the address-space
+		// limit this harness imposes (4 GB of virtual memory, which a Go heap holding
+		// a few 100 MB geometries can reach depending on when the collector runs),
+		// the death says nothing about go-geom unless the monitor relies on the
+		// limit (C04: a forged count must not be allocated): the same range is run
+		// once more without the limit, and only what happens then is judged.
+		if es := stderr.String(); !noLimit && memKB > 0 && !p.M.MemDeathIsViolation &&
+			(strings.Contains(es, "out of memory") || strings.Contains(es, "cannot allocate memory") || strings.Contains(es, "errno=12")) {
+			noLimit = true
+			sum.mu.Lock()
+			sum.Counters["worker_rerun_without_the_address_space_limit"]++
+			sum.mu.Unlock()
+			os.Remove(out + ".journal")
+			continue
+		}
+		// which case was it on?
 		jb, jerr := os.ReadFile(out + ".journal")
 		if jerr != nil || len(jb) < 8 {
 			sum.AddInconclusive(fmt.Sprintf("worker %s[%d,%d) died before its first case: %v: %s", j.class, start, start+count, err, tail(stderr.String(), 400)))
@@ -429,7 +450,7 @@ func (p *Parent) runJob(j job, sum *Summary) {
 		v := Violation{
 			Prop: p.M.ID, Class: j.class, Index: idx, Seed: p.Seed, Tier: p.Tier,
 			Kind:   "process-death",
-			Detail: fmt.Sprintf("worker process died (%v) while evaluating this case: %s", err, tail(stderr.String(), 1500)),
+			Detail: fmt.Sprintf("worker process died (%v) while evaluating this case: %s ... %s", err, head(stderr.String(), 400), tail(stderr.String(), 1100)),
 			Input:  input, RawHex: rawHex,
 		}
 		v.Key = v.Kind + ":" + Canon(input)
@@ -441,6 +462,14 @@ func (p *Parent) runJob(j job, sum *Summary) {
 		start = idx + 1
 		os.Remove(out + ".journal")
 	}
+}
+
+func head(s string, n int) string {
+	s = strings.TrimSpace(s)
+	if len(s) > n {
+		return s[:n]
+	}
+	return s
 }
 
 func tail(s string, n int) string {
